@@ -619,6 +619,119 @@ func SweepVsExecutor(d *fw.Driver, res *fw.Result, seed int64, withClose bool) e
 	return nil
 }
 
+// SubRegVsSweep forces the schedule in which the frame executor has looked a subscription's response
+// up in `inflight` but has not yet registered the channel handler when the main loop sweeps
+// (closeInFlight + closeChans) — because the client is closed (mode "close") or because the connection
+// was lost (mode "loss").  Whatever the caller got, a channel it obtained must be closed afterwards.
+func SubRegVsSweep(d *fw.Driver, res *fw.Result, seed int64, mode string) error {
+	run, closer, cancel, err := newRunner(seed, 0, true)
+	if err != nil {
+		return err
+	}
+	defer run.E.Close()
+	defer cancel()
+	sig := "schedule subscription-registration-vs-sweep mode=" + mode
+	base := nextToks(20)
+	rt := run.E.RT
+	if !run.Probe(base+1, 2*time.Second) {
+		return fmt.Errorf("gated scenario: warm-up call failed")
+	}
+	// the executor stands still right after it found the subscription's request in `inflight` (it holds
+	// inflightLk there); the main loop, once it owns that lock, stands still before its first
+	// non-blocking send of the sweep
+	gFe := rt.Gate("fe.resp.lookup", 1)
+	gMain := rt.Gate("cif.send", 1)
+	nDeliver := rt.Count("fe.resp.deliver")
+	type subRes struct {
+		ch  <-chan int
+		err error
+	}
+	got := make(chan subRes, 1)
+	go func() {
+		ch, err := run.CL.Sub(run.ctx, base+2, -1)
+		got <- subRes{ch, err}
+	}()
+	if !gFe.WaitReached(2 * time.Second) {
+		rt.ReleaseAll()
+		return fmt.Errorf("gated scenario: executor did not reach the lookup")
+	}
+	closerDone := make(chan struct{})
+	switch mode {
+	case "close":
+		n := rt.Count("main.exit.begin")
+		go func() { closer(); close(closerDone) }()
+		rt.WaitCount("main.exit.begin", n+1, 500*time.Millisecond)
+	case "loss":
+		n := rt.Count("reconn.begin")
+		run.E.PX.Cut(0, "rst")
+		rt.WaitCount("reconn.begin", n+1, 500*time.Millisecond)
+	}
+	time.Sleep(3 * time.Millisecond) // whatever the main loop does before it needs inflightLk happens now
+	gFe.Release()                    // the executor goes on: registers the channel handler, delivers the response
+	gMain.WaitReached(500 * time.Millisecond)
+	rt.WaitCount("fe.resp.deliver", nDeliver+1, 500*time.Millisecond)
+	time.Sleep(2 * time.Millisecond)
+	gMain.Release() // the sweep finds the mailbox full and moves on
+	var sr subRes
+	select {
+	case sr = <-got:
+	case <-time.After(3 * time.Second):
+		res.Add(fw.Finding{Kind: "monitor", Signature: sig + " subscription call blocks", Detail: "the subscription call did not return within 3s of the sweep"})
+		rt.ReleaseAll()
+		return nil
+	}
+	if sr.err == nil && sr.ch != nil {
+		// the caller holds a channel: it must end now that the connection it lived on was swept
+		closedInTime := false
+		deadline := time.After(2 * time.Second)
+	drain:
+		for {
+			select {
+			case _, ok := <-sr.ch:
+				if !ok {
+					closedInTime = true
+					break drain
+				}
+			case <-deadline:
+				break drain
+			}
+		}
+		if !closedInTime {
+			what := "the closer returned"
+			if mode == "loss" {
+				what = "the connection was lost and swept"
+			}
+			res.Add(fw.Finding{Kind: "monitor", Signature: sig + " channel left open", Detail: "a subscription whose response was being processed while the main loop swept got a channel that is still open 2s after " + what + ": its handler was registered after closeChans ran"})
+		}
+	}
+	if mode == "loss" {
+		if !run.Probe(base+5, 3*time.Second) {
+			res.Add(fw.Finding{Kind: "monitor", Signature: sig + " never heals", Detail: "no call succeeded within 3s of the loss"})
+		}
+		scen.WithTimeout(4*time.Second, closer)
+	} else {
+		select {
+		case <-closerDone:
+		case <-time.After(4 * time.Second):
+			res.Add(fw.Finding{Kind: "monitor", Signature: sig + " closer hangs", Detail: "the client's closer did not return within 4s"})
+		}
+	}
+	rt.ReleaseAll()
+	time.Sleep(3 * time.Millisecond)
+	evs := rt.Events()
+	if os.Getenv("VERIF_DEBUG") == "1" {
+		for _, ev := range evs {
+			fmt.Fprintln(os.Stderr, ev.Seq, ev.T, ev.Conn, ev.Site, ev.KV)
+		}
+	}
+	if _, err := Check(d, res, evs, ClientConn(evs), sig); err != nil {
+		return err
+	}
+	res.Count("schedule.subreg-vs-sweep." + mode)
+	res.Eval(true, []interface{}{"subreg-vs-sweep", mode, seed})
+	return nil
+}
+
 // StaleDelete forces the schedule in which the executor's delete of a delivered response runs only
 // after a retry of the same call (same id) has been registered on the new connection.
 func StaleDelete(d *fw.Driver, res *fw.Result, seed int64) error {
@@ -840,7 +953,7 @@ func WireCounts(res *fw.Result, run *Runner, sig string) {
 // ---------- C18: the closer at every yield point ----------
 
 var yieldSites = []string{"call.enq", "main.take", "main.errcheck", "main.register", "w.begin", "main.wrote", "reader.msg", "reader.queue",
-	"fe.resp.lookup", "fe.resp.deliver", "fe.resp.delete", "fe.resp.chanreg", "fe.chval", "sink.pushed", "buf.in", "reconn.begin",
+	"fe.resp.lookup", "fe.resp.prechan", "fe.resp.deliver", "fe.resp.delete", "fe.resp.chanreg", "fe.chval", "sink.pushed", "buf.in", "reconn.begin",
 	"cif.send", "cif.clear", "reconn.spawn", "rc.dial", "rc.swap", "main.incoming", "reader.err", "call.recv", "main.pong"}
 
 // closeWorkload runs the mixed workload; if gate != nil the closer is fired when the gate is reached.
@@ -871,7 +984,12 @@ func closeWorkload(d *fw.Driver, res *fw.Result, seed int64, site string, nth in
 			select {
 			case <-g.Reached():
 				fire()
-				time.Sleep(300 * time.Microsecond)
+				// let the closer get as far as it can while the gated goroutine stands still (it may need
+				// that goroutine — a lock it holds — to finish: then go on after a short while)
+				select {
+				case <-closerDone:
+				case <-time.After(15 * time.Millisecond):
+				}
 				g.Release()
 			case <-run.ctx.Done():
 			}
@@ -986,6 +1104,9 @@ func closeWorkload(d *fw.Driver, res *fw.Result, seed int64, site string, nth in
 
 // CloseEverywhere fires the closer at sampled occurrences of every yield-point site of the workload.
 func CloseEverywhere(d *fw.Driver, res *fw.Result, seed int64, thorough bool) error {
+	if os.Getenv("VERIF_ONLY") == "subreg" {
+		return SubRegVsSweep(d, res, seed, "close")
+	}
 	counts, err := closeWorkload(d, res, seed, "", 0, "close at end")
 	if err != nil {
 		return err
@@ -1017,6 +1138,9 @@ func CloseEverywhere(d *fw.Driver, res *fw.Result, seed int64, thorough bool) er
 	res.Sample(map[string]interface{}{"yield_point_occurrences_in_reference_run": counts})
 	// the deadlock schedule, with the closer as the observer
 	if err := SweepVsExecutor(d, res, seed, true); err != nil {
+		return err
+	}
+	if err := SubRegVsSweep(d, res, seed, "close"); err != nil {
 		return err
 	}
 	return oneShotClose(res)
